@@ -181,13 +181,14 @@ def _returns_mixed_param(ctx, g):
     return None
 
 
-def rule_memo(ctx, prop, rule, regs):
-    """No memoised function reachable from `regs` conflates values of different kinds."""
+def rule_memo(ctx, prop, rule, regs, roots=None):
+    """No memoised function reachable from `regs` (or the given root functions)
+    conflates values of different kinds."""
     from ..util import key_of
     rr = RuleResult(prop, rule, 'EFF',
                     'memoised helpers keyed by value must not depend on the '
                     'kind (logical vs number) of that value', floor=1)
-    roots = []
+    roots = list(roots or [])
     for reg in regs:
         f, _ = reg_targets(ctx, reg, include_wrappers=True)
         roots += [x for x in f if x not in roots]
@@ -295,6 +296,12 @@ def _access_deps(ctx, f, e, loc, depth=0, seen=None):
         if base is not None and base.id in loc and base.id not in comp_vars:
             parts.setdefault(base.id, set()).update(const_keys(key))
             consumed.add(id(base))
+        # attribute paths of a parameter/local: x.attr is the part '.attr' of x
+        if isinstance(x, ast.Attribute) and isinstance(x.value, ast.Name) and \
+                x.value.id in loc and x.value.id not in comp_vars and \
+                id(x.value) not in consumed:
+            parts.setdefault(x.value.id, set()).add('.' + x.attr)
+            consumed.add(id(x.value))
     for x in ast.walk(e):
         if isinstance(x, ast.Name) and isinstance(x.ctx, ast.Load) and \
                 x.id in loc and x.id not in comp_vars and id(x) not in consumed:
@@ -335,6 +342,41 @@ def _access_deps(ctx, f, e, loc, depth=0, seen=None):
             for k, v2 in p2.items():
                 parts.setdefault(k, set()).update(v2)
             lossy |= l2
+    # attribute parts assigned in this function: follow what was stored there
+    for nme in list(parts):
+        for key in sorted(k for k in parts[nme] if isinstance(k, str)
+                          and k.startswith('.')):
+            tag = '%s%s' % (nme, key)
+            if tag in seen:
+                continue
+            vals = []
+            for n in own_nodes(f):
+                if isinstance(n, ast.Assign):
+                    for t in n.targets:
+                        ts = t.elts if isinstance(t, (ast.Tuple, ast.List)) \
+                            else [t]
+                        vs = n.value.elts if isinstance(t, (
+                            ast.Tuple, ast.List)) and isinstance(
+                            n.value, (ast.Tuple, ast.List)) and len(
+                            n.value.elts) == len(ts) else [n.value] * len(ts)
+                        for tt, vv in zip(ts, vs):
+                            if isinstance(tt, ast.Attribute) and isinstance(
+                                    tt.value, ast.Name) and tt.value.id == nme \
+                                    and '.' + tt.attr == key and not any(
+                                    y is e for y in ast.walk(n)):
+                                vals.append(vv)
+            if not vals:
+                continue
+            parts[nme].discard(key)
+            for v in vals:
+                w2, p2, l2 = _access_deps(ctx, f, v, loc, depth + 1,
+                                          seen | {tag})
+                whole |= w2
+                for k, v2 in p2.items():
+                    parts.setdefault(k, set()).update(v2)
+                lossy |= l2
+        if not parts[nme]:
+            parts.pop(nme)
     for nme in list(parts):
         if nme in whole:
             parts.pop(nme)
@@ -428,6 +470,33 @@ def rule_cachekey(ctx, prop, rule, modules):
                 kn = {x.id for x in ast.walk(K) if isinstance(x, ast.Name)}
                 _judge_key(ctx, rr, f, rel, n, D, K, V, kn, loc)
                 continue
+            # if K in D: use D[K]  else: ... D[K] = v
+            for n in own_nodes(f):
+                if not (isinstance(n, ast.If) and n.orelse):
+                    continue
+                tests = n.test.values if isinstance(
+                    n.test, ast.BoolOp) and isinstance(n.test.op, ast.And) \
+                    else [n.test]
+                for t in tests:
+                    if not (isinstance(t, ast.Compare) and len(t.ops) == 1 and
+                            isinstance(t.ops[0], ast.In) and isinstance(
+                                t.comparators[0], (ast.Name, ast.Attribute))):
+                        continue
+                    K, D = t.left, t.comparators[0]
+                    if isinstance(K, ast.Constant):
+                        continue
+                    stores = [x for st in n.orelse for x in ast.walk(st)
+                              if isinstance(x, ast.Assign) and any(
+                                  isinstance(tt, ast.Subscript) and
+                                  norm_src(tt.value) == norm_src(D) and
+                                  norm_src(tt.slice) == norm_src(K)
+                                  for tt in x.targets)]
+                    if not stores:
+                        continue
+                    rr.instances += 1
+                    kn = {x.id for x in ast.walk(K) if isinstance(x, ast.Name)}
+                    _judge_key(ctx, rr, f, rel, n, D, K, stores[0].value, kn,
+                               loc)
             # try: v = D[K] / except KeyError: ... D[K] = v
             for n in own_nodes(f):
                 if not isinstance(n, ast.Try):
